@@ -38,6 +38,14 @@ theorem game2048_rules_last_iff (s : State) (a : Nat) (d : Draw) :
     (stepL2 s a d).2.stepType = .last ↔ ¬ ∃ a', legal (stepL2 s a d).1.board a' := by
   rw [Game2048.stepL2_last_iff, ← Game2048.canPlay_iff]; simp
 
+/-- the same about `step` ITSELF (audit r4 #5): on a square board whose cached mask is the legality mask, for every action 0..3 and
+every spawn draw, `step` answers LAST exactly when no move is legal on the successor board -/
+theorem game2048_step_last_iff (s : State) (a : Nat) (d : Draw) (ha : a < 4) (hs : Square s.board)
+    (hm : s.actionMask = legalMask s.board) :
+    (step s a d).2.stepType = .last ↔ ¬ ∃ a', legal (step s a d).1.board a' := by
+  rw [game2048_step_eq_rules s a d ha hs hm]
+  exact game2048_rules_last_iff s a d
+
 -- a 2×2 state where Left merges 2+2, spawns a 4 on cell 3 and leaves a playable board; and the refinement's hypotheses hold
 example : Square (reset 2 ⟨0, 1⟩).1.board ∧ (reset 2 ⟨0, 1⟩).1.actionMask = legalMask (reset 2 ⟨0, 1⟩).1.board ∧
     (stepL2 (reset 2 ⟨0, 1⟩).1 1 ⟨0, 1⟩).1.board = [[1, 1], [0, 0]] ∧
@@ -354,19 +362,32 @@ theorem game2048_reset_obs_in_bounds (n : Nat) (d : Draw) :
 theorem game2048_step_obs_in_bounds (n : Nat) (s : State) (a : Int) (d : Draw) :
     ObsInBounds (obsBounds n) (obsLeaves (step s a d).2.obs) := Game2048.obs_in_bounds n _
 
+/-! NOTE on what the membership theorems of this section do and do not cover (audits r4 #6, r5 #6, r6 #8): the dtype tag of every leaf
+is written by `toNValue` (by construction) — a wrong dtype in the real code cannot falsify `….valid (toNValue …) = true`; dtypes and
+field order of the real observations are compared by the `game2048.spec` / `game2048.state` ops (`nvalue`: field order, shape, dtype, data) and
+`jax.eval_shape` in the sweeps.  Shapes are READ OFF the value by `toNValue` (widths off the first row): see `…_obs_valid_only`. -/
+
 /-! #### (wave 3) membership in the DECLARED specs: structure, shapes, dtypes and bounds -/
 open Sp PzS PzS3
 
 /-- the model's `obsSpec` / `actionSpec` / reward and discount specs ARE the specs generated from the real spec objects
-(Gen/Specs.lean) for the catalogue configurations of Game2048 (board sizes 4 and 3) -/
+(Gen/Specs.lean) for the catalogue configurations of Game2048 (board sizes 4 and 3) and the spec-only configuration
+`Game2048(board_size=5)` (three sizes: the board shape follows `n`, the mask does not) -/
 theorem game2048_obsSpec_generated :
     prefixed "observation_spec." (obsSpec 4) = declared "game2048-4" "observation_spec." ∧
     prefixed "observation_spec." (obsSpec 3) = declared "game2048-3" "observation_spec." ∧
     [("action_spec", actionSpec)] = declared "game2048-4" "action_spec" ∧
     [("action_spec", actionSpec)] = declared "game2048-3" "action_spec" ∧
     [("reward_spec", rewardSpec)] = declared "game2048-4" "reward_spec" ∧
-    [("discount_spec", discountSpec)] = declared "game2048-4" "discount_spec" := by
-  refine ⟨by decide, by decide, by decide, by decide, by decide, by decide⟩
+    [("discount_spec", discountSpec)] = declared "game2048-4" "discount_spec" ∧
+    [("reward_spec", rewardSpec)] = declared "game2048-3" "reward_spec" ∧
+    [("discount_spec", discountSpec)] = declared "game2048-3" "discount_spec" ∧
+    prefixed "observation_spec." (obsSpec 5) = declared "spec-only-game2048-5" "observation_spec." ∧
+    [("action_spec", actionSpec)] = declared "spec-only-game2048-5" "action_spec" ∧
+    [("reward_spec", rewardSpec)] = declared "spec-only-game2048-5" "reward_spec" ∧
+    [("discount_spec", discountSpec)] = declared "spec-only-game2048-5" "discount_spec" := by
+  refine ⟨by decide +kernel, by decide +kernel, by decide +kernel, by decide +kernel, by decide +kernel, by decide +kernel,
+    by decide +kernel, by decide +kernel, by decide +kernel, by decide +kernel, by decide +kernel, by decide +kernel⟩
 
 /-- the `reset` observation — EVERY board size, EVERY first-tile draw (in the support or not) — is accepted by
 `observation_spec.validate`: fields `board`, `action_mask`; shapes `(n, n)`, `(4,)`; dtypes int32, bool; mask in [0, 1] -/
@@ -387,7 +408,10 @@ theorem game2048_run_obs_valid (n : Nat) (d0 : Draw) (ads : List (Nat × Draw)) 
   exact (Game2048.shaped_iff _ _).2 ⟨by rw [hl]; exact (Game2048.reset_shaped n d0).1, hsq⟩
 
 /-- what membership means (so the theorems above are not hollow): `validate` accepts ONLY observations whose board has shape
-`(n, n)` with `n·n` entries and whose mask has 4 entries -/
+`(n, n)` with `n·n` entries and whose mask has 4 entries  CAVEAT (audits r4 #7, r5 #5, r6 #5): for every field that is a nested list, `toNValue` reads the widths off the FIRST row of the
+nested list, so the shape conjuncts here mean "row count, length of the first row, total number of cells" — a ragged value with the right total can be a
+member, and nothing is concluded about the later rows.  Rectangularity is part of the invariant (`SpecInv` / `Shaped` / `Rect…`) under which the
+forward theorems (`…_reset_obs_valid`, `…_step_obs_valid`, `…_along`) are proved, i.e. it holds of every EMITTED observation. -/
 theorem game2048_obs_valid_only (n : Nat) (o : Obs) (h : (obsSpec n).valid (toNValue o) = true) :
     gridShape o.board = [n, n] ∧ o.board.flatten.length = n * n ∧ o.actionMask.length = 4 :=
   Game2048.obs_valid_only n o h
